@@ -9,6 +9,7 @@ package vsync
 
 import (
 	"fmt"
+	"os"
 	"runtime"
 	"runtime/debug"
 	"strconv"
@@ -122,13 +123,14 @@ func (s *sched) me() *thread {
 
 type abortSentinel struct{}
 
-// point parks the calling thread until the scheduler runs it.
-func (s *sched) point(t *thread, op pending) {
+// point parks the calling thread until the scheduler runs it. It reports whether the operation was granted: an adopted
+// goroutine is let go without a grant when the execution is aborted while it waits.
+func (s *sched) point(t *thread, op pending) bool {
 	s.mu.Lock()
 	if s.aborted {
 		s.mu.Unlock()
 		if t.adopted {
-			return
+			return false
 		}
 		panic(abortSentinel{})
 	}
@@ -142,10 +144,11 @@ func (s *sched) point(t *thread, op pending) {
 		if t.adopted {
 			// a goroutine started by the code under test has no wrapper to catch the sentinel: it runs on
 			// freely (the harness makes it terminate) while the harness threads unwind
-			return
+			return false
 		}
 		panic(abortSentinel{})
 	}
+	return true
 }
 
 // waitUntil waits (scheduler goroutine) until pred holds or the timeout expires. pred runs with s.mu held.
@@ -511,12 +514,26 @@ func controlled() (*sched, *thread) {
 	return s, t
 }
 
+// phantomRelease: an Unlock by a goroutine that is no longer controlled matches a Lock that was let go without the lock
+var phantomMu sync.Mutex
+
+func phantomRelease(n *int) bool {
+	phantomMu.Lock()
+	defer phantomMu.Unlock()
+	if *n > 0 {
+		*n--
+		return true
+	}
+	return false
+}
+
 // ---------------------------------------------------------------- Mutex
 
 type Mutex struct {
-	real sync.Mutex
-	held bool // model state (controlled mode only)
-	hist []string
+	real    sync.Mutex
+	phantom int  // Lock calls that returned without the lock because their execution was aborted
+	held    bool // model state (controlled mode only)
+	hist    []string
 }
 
 func (m *Mutex) Lock() {
@@ -531,7 +548,12 @@ func (m *Mutex) Lock() {
 		s.mu.Lock()
 		n := s.lockName("M", m)
 		s.mu.Unlock()
-		s.point(t, pending{kind: opLock, name: n, mu: m})
+		if !s.point(t, pending{kind: opLock, name: n, mu: m}) {
+			// let go without the lock (aborted execution): the matching Unlock must not touch the real lock
+			phantomMu.Lock()
+			m.phantom++
+			phantomMu.Unlock()
+		}
 		return
 	}
 	m.real.Lock()
@@ -550,6 +572,9 @@ func (m *Mutex) Unlock() {
 		s.mu.Unlock()
 		return
 	}
+	if phantomRelease(&m.phantom) {
+		return
+	}
 	if s := cur(); s != nil {
 		// aborted execution unwinding: tolerate
 		s.mu.Lock()
@@ -566,6 +591,10 @@ func (m *Mutex) Unlock() {
 		// taken under a scheduler that has finished since: a straggler of that execution is unwinding
 		m.held = false
 		return
+	}
+	if os.Getenv("VERIF_VSYNC_DEBUG") != "" && m.real.TryLock() {
+		m.real.Unlock()
+		panic(fmt.Sprintf("vsync debug: real unlock of a mutex that is not really locked; g=%d history %v", goid(), m.hist))
 	}
 	m.real.Unlock()
 }
@@ -586,6 +615,8 @@ func (m *Mutex) TryLock() bool {
 // ---------------------------------------------------------------- RWMutex
 
 type RWMutex struct {
+	phantomW  int // Lock / RLock calls that returned without the lock because their execution was aborted
+	phantomR  int
 	real      sync.RWMutex
 	writer    bool
 	readers   int
@@ -598,8 +629,11 @@ func (rw *RWMutex) Lock() {
 		n := s.lockName("RW", rw)
 		s.mu.Unlock()
 		// Go's RWMutex: a pending writer blocks new readers. Announce, then acquire.
-		s.point(t, pending{kind: opLock, name: n, rw: rw})
-		s.point(t, pending{kind: opLockAcquire, name: n, rw: rw})
+		if !s.point(t, pending{kind: opLock, name: n, rw: rw}) || !s.point(t, pending{kind: opLockAcquire, name: n, rw: rw}) {
+			phantomMu.Lock()
+			rw.phantomW++
+			phantomMu.Unlock()
+		}
 		return
 	}
 	rw.real.Lock()
@@ -614,6 +648,9 @@ func (rw *RWMutex) Unlock() {
 		}
 		rw.writer = false
 		s.mu.Unlock()
+		return
+	}
+	if phantomRelease(&rw.phantomW) {
 		return
 	}
 	if s := cur(); s != nil {
@@ -638,7 +675,11 @@ func (rw *RWMutex) RLock() {
 		s.mu.Lock()
 		n := s.lockName("RW", rw)
 		s.mu.Unlock()
-		s.point(t, pending{kind: opRLock, name: n, rw: rw})
+		if !s.point(t, pending{kind: opRLock, name: n, rw: rw}) {
+			phantomMu.Lock()
+			rw.phantomR++
+			phantomMu.Unlock()
+		}
 		return
 	}
 	rw.real.RLock()
@@ -653,6 +694,9 @@ func (rw *RWMutex) RUnlock() {
 		}
 		rw.readers--
 		s.mu.Unlock()
+		return
+	}
+	if phantomRelease(&rw.phantomR) {
 		return
 	}
 	if s := cur(); s != nil {
